@@ -8,6 +8,17 @@ LEVEL = "proof"
 
 P2P, P2M, M2M, M2L, L2L, L2P = 1, 2, 4, 8, 16, 32
 CHAIN = [P2M, M2M, M2L, L2L, L2P]
+# the library's named flag sets (TbfAlgorithmUtils::TbfOperations): the case line says alias=<name>; the harness takes the
+# library's constant, the model its own definition (Tbfmm.flagAlias), and flags=<n> records the documented value
+ALIAS = {P2M | M2M: "b2t", M2L | P2P: "transfer", L2L | L2P: "t2b", P2P: "near", P2M | M2M | M2L | L2L | L2P: "far", 63: "all"}
+DEFAULT = {63: "default"}      # execute(tree) without a flag argument
+SINGLE = {P2P: "p2p", P2M: "p2m", M2M: "m2m", M2L: "m2l", L2L: "l2l", L2P: "l2p"}
+
+
+def exec_line(ex, f, upper, extra, named=None):
+    return "exec %s flags=%d%s upper=%d%s" % (ex, f, " alias=%s" % named[f] if named and f in named else "", upper, extra)
+
+
 OPNAME = {P2P: {"P2P", "P2PI", "P2PT"}, P2M: {"P2M"}, M2M: {"M2M"}, M2L: {"M2L"}, L2L: {"L2L"}, L2P: {"L2P"}}
 
 
@@ -42,17 +53,18 @@ def gen_cases(tier, seed, configs):
                 upper = 2
             extra += " ctor=%d" % ct
         b = "build bs=%d mode=%d" % (bs, mode)
-        stagings = [[63], [P2M | M2M, M2L | P2P, L2L | L2P]] + [random_partition(r) for _ in range(3)]
+        stagings = [[63], [P2M | M2M, M2L | P2P, L2L | L2P], [P2M | M2M | M2L | L2L | L2P, P2P]] + [random_partition(r) for _ in range(3)]
+        named = lambda si: ALIAS if si in (1, 2) else (r.choice([None, ALIAS, DEFAULT]) if si == 0 else None)
         body = []
         for si, st in enumerate(stagings):
-            body += ["mark st%d" % si, b] + ["exec %s flags=%d upper=%d%s" % (ex, f, upper, extra) for f in st] + ["dump values"]
+            body += ["mark st%d" % si, b] + [exec_line(ex, f, upper, extra, named(si)) for f in st] + ["dump values"]
         singles = [P2P, P2M, M2M, M2L, L2L, L2P]
         for f in singles:
             # each flag alone, after the flags before it in the chain so that there is something to move
             pre = [g for g in CHAIN if g < f and f != P2P]
             body += ["mark pre%d" % f, b] + ["exec %s flags=%d upper=%d%s" % (ex, sum(pre), upper, extra)] * (1 if pre else 0) + ["dump values"]
             body += ["mark one%d" % f, b] + ["exec %s flags=%d upper=%d%s" % (ex, sum(pre), upper, extra)] * (1 if pre else 0) + \
-                    ["mark only%d" % f, "exec %s flags=%d upper=%d%s" % (ex, f, upper, extra), "dump values"]
+                    ["mark only%d" % f, exec_line(ex, f, upper, extra, SINGLE if r.random() < 0.5 else (ALIAS if f == P2P else None)), "dump values"]
         cases.append(corefam.make_case("c12-%d" % k, D, H, periodic, parts, bs, mode, body,
                                        {"kind": kind, "upper": upper, "stagings": stagings, "ex": ex}))
     return cases
@@ -143,15 +155,16 @@ def tsm_family(rep, tier, seed, replay=None):
                 if ct in (1, 2):
                     upper = 2
                 extra += " ctor=%d" % ct
-            stagings = [[63], [P2M | M2M, M2L | P2P, L2L | L2P]] + [random_partition(r) for _ in range(3)]
+            stagings = [[63], [P2M | M2M, M2L | P2P, L2L | L2P], [P2M | M2M | M2L | L2L | L2P, P2P]] + [random_partition(r) for _ in range(3)]
+            named = lambda si: ALIAS if si in (1, 2) else (r.choice([None, ALIAS, DEFAULT]) if si == 0 else None)
             body = []
             for si, st in enumerate(stagings):
-                body += ["mark st%d" % si, "buildtsm bs=%d mode=%d" % (bs, mode)] + ["exec %s flags=%d upper=%d%s" % (ex, f, upper, extra) for f in st] + ["dump tsmvalues"]
+                body += ["mark st%d" % si, "buildtsm bs=%d mode=%d" % (bs, mode)] + [exec_line(ex, f, upper, extra, named(si)) for f in st] + ["dump tsmvalues"]
             for f in (P2P, P2M, M2M, M2L, L2L, L2P):
                 pre = [g for g in CHAIN if g < f and f != P2P]
                 body += ["mark pre%d" % f, "buildtsm bs=%d mode=%d" % (bs, mode)] + ["exec %s flags=%d upper=%d%s" % (ex, sum(pre), upper, extra)] * (1 if pre else 0) + ["dump tsmvalues"]
                 body += ["mark one%d" % f, "buildtsm bs=%d mode=%d" % (bs, mode)] + ["exec %s flags=%d upper=%d%s" % (ex, sum(pre), upper, extra)] * (1 if pre else 0) + \
-                        ["mark only%d" % f, "exec %s flags=%d upper=%d%s" % (ex, f, upper, extra), "dump tsmvalues"]
+                        ["mark only%d" % f, exec_line(ex, f, upper, extra, SINGLE if r.random() < 0.5 else (ALIAS if f == P2P else None)), "dump tsmvalues"]
             cases.append(tsm.make_case("c12t-%d" % k, D, H, periodic, src, tgt, bs, mode, body, {"kind": kind, "upper": upper, "stagings": stagings, "ex": ex}))
     n = 0
     for res in core.run_cases(cases, binaries):
